@@ -561,6 +561,134 @@ def r11_7(ctx, counts) -> RuleResult:
     return res
 
 
+def r11_8(ctx, counts) -> RuleResult:
+    """a memoised slot derived from mutable state is reset by every writer of that state"""
+    model: Model = ctx.model
+    res = RuleResult(
+        'R11.8', 'DERIVED-SLOT-INVALIDATION',
+        'The date/time values are mutable in one respect: the tzinfo setter (and any other method '
+        'outside __init__/__new__ that assigns a base attribute such as self._dt) replaces the '
+        'state the value is computed from; adjust-*-to-timezone and the implicit-timezone logic '
+        'copy a value and then set its tzinfo. A slot that memoises something derived from that '
+        'state — an attribute assigned outside __init__ from an expression that reads the base '
+        'attribute — must be reassigned or deleted in every such writer, otherwise the copy '
+        'keeps the key computed for the old timezone (comparisons of the adjusted value use the '
+        'stale instant). Instances: (class, base attribute, derived attribute, writer).')
+    n = 0
+    writers_seen = 0
+    for cls in sorted(model.all_classes(), key=lambda c: c.key):
+        if not cls.module.name.startswith('elementpath.datatypes'):
+            continue
+        init_names = ('__init__', '__new__', '__setstate__', '__copy__', '__deepcopy__')
+        # writers of base attributes outside construction
+        writers: dict[str, list] = {}
+        assigns: dict[str, list] = {}
+        for m in [g for g in cls.module.functions.values() if g.cls is cls and g.parent is None]:
+            for st in walk_local(m.node):
+                tgts = []
+                if isinstance(st, ast.Assign):
+                    for t in st.targets:
+                        tgts.extend(t.elts if isinstance(t, ast.Tuple) else [t])
+                elif isinstance(st, (ast.AugAssign, ast.AnnAssign)) and getattr(st, 'value', None):
+                    tgts = [st.target]
+                for t in tgts:
+                    if isinstance(t, ast.Attribute) and dotted(t.value) == 'self':
+                        assigns.setdefault(t.attr, []).append((m, st))
+        for attr, sites in assigns.items():
+            for m, st in sites:
+                if m.name not in init_names:
+                    writers.setdefault(attr, []).append((m, st))
+        if not writers:
+            continue
+        writers_seen += sum(len(v) for v in writers.values())
+        # derived attributes: assigned outside construction from an expression reading a base
+        # attribute that has an outside writer
+        for d_attr, sites in assigns.items():
+            for m, st in sites:
+                if m.name in init_names or st.value is None:          # type: ignore[union-attr]
+                    continue
+                reads = {x.attr for x in ast.walk(st.value)           # type: ignore[union-attr]
+                         if isinstance(x, ast.Attribute) and dotted(x.value) == 'self'}
+                for base in sorted(reads & set(writers)):
+                    if base == d_attr:
+                        continue
+                    for wm, wst in writers[base]:
+                        if wm is m:
+                            continue
+                        n += 1
+                        resets = any(
+                            (isinstance(y, (ast.Assign, ast.AugAssign, ast.AnnAssign, ast.Delete))
+                             and any(isinstance(z, ast.Attribute) and z.attr == d_attr
+                                     and dotted(z.value) == 'self'
+                                     and isinstance(z.ctx, (ast.Store, ast.Del))
+                                     for z in ast.walk(y)))
+                            for y in walk_local(wm.node))
+                        res.instances.append(f'{cls.name}: {d_attr} (set in {m.name}) derives '
+                                             f'from {base}; writer {wm.name} resets it={resets}')
+                        if resets:
+                            res.ok()
+                        else:
+                            res.fail(finding('R11.8', wm, wst, f'{d_attr} not reset with {base}',
+                                             f'{cls.name}.{wm.name} replaces self.{base} '
+                                             f'(`{stmt_text(wst)[:50]}`) but leaves self.{d_attr}, '
+                                             f'which {m.name} computes from self.{base} and keeps: '
+                                             f'a value whose timezone is set after a first use '
+                                             f'(adjust-dateTime-to-timezone on a compared value) '
+                                             f'keeps the stale derived value'))
+    res.instances.append(f'{writers_seen} write(s) of instance state outside construction in the '
+                         f'datatypes; {n} (derived slot, writer) pair(s)')
+    res.ok()
+    counts['state_writes_outside_init'] = writers_seen
+    counts['derived_slot_pairs'] = n
+    if writers_seen < 1:
+        raise AnalysisError('no writer of instance state outside construction located in the '
+                            'datatypes (the tzinfo setter vanished?)')
+    return res
+
+
+def r11_9(ctx, counts) -> RuleResult:
+    """the datetime proxy does not carry the year of values outside 1..9999"""
+    model: Model = ctx.model
+    res = RuleResult(
+        'R11.9', 'PROXY-YEAR-CARRIED',
+        'AbstractDateTime keeps its fields in a datetime.datetime proxy (`_dt`) whose year is a '
+        'stand-in (4 or 6) when the real year (`_year`) is outside 1..9999. A value rebuilt from '
+        'the proxy of another value — `<cls>.fromdatetime(<expression reading ._dt>)` — must '
+        'pass the real year (the `year` argument), otherwise BCE and five-digit years silently '
+        'become year 4 or 6 (a difference of millions of days). Calls that convert an external '
+        'datetime (no `._dt` in the argument) are not concerned.')
+    n = sites = 0
+    for f in sorted(model.all_functions(), key=lambda q: q.key):
+        for c in walk_local(f.node):
+            if not (isinstance(c, ast.Call) and isinstance(c.func, ast.Attribute)
+                    and c.func.attr == 'fromdatetime' and c.args):
+                continue
+            sites += 1
+            from_proxy = any(isinstance(x, ast.Attribute) and x.attr == '_dt'
+                             for x in ast.walk(c.args[0]))
+            if not from_proxy:
+                continue
+            n += 1
+            has_year = len(c.args) > 1 or any(k.arg == 'year' for k in c.keywords)
+            res.instances.append(f'{f.key}: `{stmt_text(c)[:60]}` passes the real year='
+                                 f'{has_year}')
+            if has_year:
+                res.ok()
+            else:
+                res.fail(finding('R11.9', f, c, 'fromdatetime(proxy) without year',
+                                 f'`{stmt_text(c)[:70]}` rebuilds a value from the datetime proxy '
+                                 f'of another one without its real year: for years outside '
+                                 f'1..9999 the proxy year (4 or 6) becomes the year of the '
+                                 f'result (xs:dateTime("12000-01-01T00:00:00") minus itself with '
+                                 f'an implicit timezone gave -P4381449D)'))
+    res.instances.append(f'{sites} fromdatetime call(s) in the package, {n} from a proxy')
+    res.ok()
+    counts['fromdatetime_calls'] = sites
+    if sites < 2:
+        raise AnalysisError(f'only {sites} calls of fromdatetime located')
+    return res
+
+
 def run(ctx) -> dict:
     counts: dict[str, int] = {}
     # process-wide state is written only by the reviewed inventory (no new caches)
@@ -568,7 +696,8 @@ def run(ctx) -> dict:
     _state = _r19_5(ctx, counts, lambda f: f.module.name.startswith(('elementpath.datatypes', 'elementpath.helpers')), 1)
     return {
         'results': [r11_1(ctx, counts), r11_2(ctx, counts), r11_3(ctx, counts), _clones(ctx, counts),
-                    r11_5(ctx, counts), r11_6(ctx, counts), r11_7(ctx, counts), _state],
+                    r11_5(ctx, counts), r11_6(ctx, counts), r11_7(ctx, counts), r11_8(ctx, counts),
+                    r11_9(ctx, counts), _state],
         'counts': counts,
         'explanation':
             'Only the last sentence of C11 is decided ("the component-extraction functions '
